@@ -34,7 +34,7 @@ var verifTypeNames = []string{"string", "integer", "number", "boolean"}
 func verifTyped(text string, typ string) (any, bool) {
 	switch typ {
 	case "integer":
-		v, err := strconv.ParseInt(text, 0, 64)
+		v, err := strconv.ParseInt(text, 10, 64) // integers travel in decimal: 0x10, 0b11, 0o7, 1_000 are not serialisations of an integer
 		return v, err == nil
 	case "number":
 		v, err := strconv.ParseFloat(text, 64)
@@ -392,7 +392,7 @@ func verifH_C05_int_bounds() {
 	d1 := verifNondetByteIn("d1", "0123456789")
 	d2 := verifNondetByteIn("d2", "0123456789")
 	if p.text == "" {
-		verifAssume(d1 != '0') // "07" is octal in base 0: covered by the generic leaf harnesses
+		_ = d1 // leading zeros are plain decimal digits
 	}
 	text := p.text + string([]byte{d1, d2})
 	tail := int(d1-'0')*10 + int(d2-'0')
